@@ -104,13 +104,16 @@ int main(int argc, char **argv)
       os << G.pmf->nt;
       for (size_t i = 0; i < G.pmf->nt; i++) { os << " "; hexout(os, G.pmf->data[i]); }
       os << "\n";
-    } else if (cmd == "TI1D") {
+    } else if (cmd == "TI1D" || cmd == "TI1DG") {
+      // TI1DG: the count grid gets a custom geometry ("widths w lower_boundaries w upper_boundaries w+n*w") that differs from
+      // the colvar's (width 2w, from 0): the gradient grid built on it must follow, and the integral use the GRID's width/origin
+      const bool custom = (cmd == "TI1DG");
       // TI1D per has_samples min full n w data(n) counts(n): colvar_grid_gradient::write_1D_integral (the .ti.pmf
       // writer) on grids constructed from a real colvar (distanceZ, optionally periodic with period n*w)
       int per = ni(), hs = ni(), mins = ni(), fulls = ni(), n = ni();
       double w = nf();
       std::ostringstream cfg; cfg.precision(17);
-      cfg << "colvar {\n name z\n width " << w << "\n lowerBoundary 0\n upperBoundary " << n * w
+      cfg << "colvar {\n name z\n width " << (custom ? 2 * w : w) << "\n lowerBoundary 0\n upperBoundary " << (custom ? 2 * w * ((n + 3) / 2) : n * w)
           << "\n distanceZ {\n main {\n atomNumbers 1\n }\n ref {\n dummyAtom (0.0, 0.0, 0.0)\n }\n axis (0.0, 0.0, 1.0)\n";
       if (per) cfg << " period " << n * w << "\n";
       cfg << " }\n}\n";
@@ -119,14 +122,17 @@ int main(int argc, char **argv)
       if (cvs.size() != 1 || cvm::get_error()) { os << "ERR colvar " << proxy->errtext.substr(0, 200) << "\n"; }
       else {
         std::shared_ptr<colvar_grid_count> cnt;
-        if (hs) cnt.reset(new colvar_grid_count(cvs));
+        std::ostringstream gc; gc.precision(17);
+        gc << "widths " << w << "\nlower_boundaries " << w << "\nupper_boundaries " << w + n * w << "\n";
+        if (hs || custom) cnt.reset(custom ? new colvar_grid_count(cvs, gc.str()) : new colvar_grid_count(cvs));
         std::shared_ptr<colvar_grid_gradient> g(new colvar_grid_gradient(cvs, cnt));
+        if (custom && !hs) { g->samples.reset(); }      // geometry taken from the count grid, no normalisation by counts
         g->min_samples = mins; g->full_samples = fulls;
         if ((int) g->nx[0] != n || (bool) g->periodic[0] != (per != 0)) {
           os << "ERR grid nx=" << g->nx[0] << " periodic=" << g->periodic[0] << "\n";
         } else {
           for (int i = 0; i < n; i++) g->data[i] = nf();
-          for (int i = 0; i < n; i++) { int c = ni(); if (hs) cnt->data[i] = (size_t) c; }
+          for (int i = 0; i < n; i++) { int c = ni(); if (hs && i < (int) cnt->data.size()) cnt->data[i] = (size_t) c; }
           std::ostringstream txt;
           g->write_1D_integral(txt);
           std::istringstream rd(txt.str());
@@ -143,7 +149,7 @@ int main(int argc, char **argv)
         }
       }
       cvm::main()->reset();
-    } else if (cmd == "DIV" || cmd == "SOLVE") {
+    } else if (cmd == "DIV" || cmd == "SOLVE" || cmd == "SOLVE2") {
       // DIV nd per(nd) nxg(nd) w(nd) has_samples smoothed min full npre nev (bin(nd) force(nd))*(npre+nev)
       // the first npre arrivals are accumulated without divergence update and followed by set_div
       // (data read from files at start-up); the next nev go through acc_force + update_div_neighbors.
@@ -176,6 +182,10 @@ int main(int argc, char **argv)
         int itmax = ni(); double tol = nf();
         double err = -1.0;
         int iter = G.pmf->integrate(itmax, tol, err, false);
+        if (cmd == "SOLVE2") {
+          // a second call on unchanged data, starting from the first solution (projected ABF, successive outputs)
+          iter = G.pmf->integrate(itmax, tol, err, false);
+        }
         os << G.pmf->nt << " " << iter << " "; hexout(os, err);
         os << " |";
         for (size_t i = 0; i < G.pmf->divergence.size(); i++) { os << " "; hexout(os, G.pmf->divergence[i]); }
